@@ -17,7 +17,7 @@ from ..corpus import b64, unb64
 PROP = "C18"
 LEVEL = "exploration"
 COUNTS = {"quick": 1500, "thorough": 30000}
-WALL = {"quick": 170, "thorough": 3300}
+WALL = {"quick": 900, "thorough": 6000}
 RULE = (
     "scenario = one invocation constructed to land in a known category (success / no files / command-line error / fixed / "
     "failures / system error) in one of the ways listed in the property, or a mixture across 2-5 files of clean, failing, "
